@@ -458,7 +458,7 @@ w2 = wdeco(f2)
 '''
 
 
-def check_while_another_thread_computes(ctx):
+def check_while_another_thread_computes(ctx, prop='C13'):
     """inspect.signature / sigtools.signature of a decorated object give their usual answer also while
     another thread is in the middle of computing the signature of the very same object (parked inside
     a user-supplied forger down the chain).  Deterministic."""
@@ -479,22 +479,22 @@ def check_while_another_thread_computes(ctx):
         try:
             if not g['entered'].wait(10):
                 # (the worker came back without going through the forger -- nothing to observe "meanwhile")
-                ctx.count('C13.worker_did_not_park')
+                ctx.count('%s.worker_did_not_park' % prop)
                 t.join(20)
                 if result.get('a') != want['inspect']:
-                    V(ctx, 'signature-differs-while-another-thread-computes', 'a second thread got another answer than the first',
+                    ctx.violation(prop, 'WrapperBoundary', 'signature-differs-while-another-thread-computes', 'a second thread got another answer than the first',
                       {'object': name, 'usual': want['inspect'], 'got': result.get('a')}, dict(workload='wrap-threads'))
                 continue
             for label, retr in (('inspect', inspect.signature), ('sigtools', sigtools.signature)):
                 ctx.evaluated()
-                ctx.count('C13.retrieved_while_another_thread_computes')
+                ctx.count('%s.retrieved_while_another_thread_computes' % prop)
                 try:
                     got = str(retr(obj))
                 except Exception as e:
                     got = 'raised %s' % type(e).__name__
                 ctx.nontrivial(('threads', name, label))
                 if got != want[label]:
-                    V(ctx, 'signature-differs-while-another-thread-computes',
+                    ctx.violation(prop, 'WrapperBoundary', 'signature-differs-while-another-thread-computes',
                       '%s.signature of a %s object differs from its usual answer while another thread is computing the signature of the same object' % (
                           label, 'wrappers.decorator' if name == 'w1' else 'wrapper_decorator'),
                       {'object': name, 'usual': want[label], 'now': got}, dict(workload='wrap-threads'))
@@ -502,7 +502,7 @@ def check_while_another_thread_computes(ctx):
             g['release'].set()
             t.join(20)
         if result.get('a') != want['inspect']:
-            V(ctx, 'signature-differs-while-another-thread-computes', 'the parked thread itself got another answer',
+            ctx.violation(prop, 'WrapperBoundary', 'signature-differs-while-another-thread-computes', 'the parked thread itself got another answer',
               {'object': name, 'usual': want['inspect'], 'now': result.get('a')}, dict(workload='wrap-threads'))
 
 
